@@ -88,6 +88,14 @@ PROJECT_FILES = {
     'zq_star.py': 'from zq_helper import *\nfrom zq_factory import obj\n',
     'zq_lib.py': 'class Conf(object):\n    def __init__(self):\n        self.depth = 1\n    def load(self):\n        pass\n'
                  'class Keeper(object):\n    def __init__(self):\n        self.conf = Conf()\n        self.name = "k"\n    def keep(self):\n        return self.conf\n',
+    # star-import cycles: the analysis of either module is cut where it meets itself (SourceModule._attrs / _analysing); lint creates
+    # no EvalCtx and location / usages create theirs after extract_scope (supp 2e0a5c1)
+    'zq_cyca.py': 'from zq_cycb import *\nCA = 1\ndef fa():\n    return CB\n',
+    'zq_cycb.py': 'from zq_cyca import *\nCB = 2\nclass KB(object):\n    def mb(self):\n        return CA\n',
+    'zq_cycc.py': 'from zq_cyca import *\nfrom zq_cycc import *\nCC = 3\n',
+    # two packages with the same RELATIVE star import: what `.util` means depends on the file that asks
+    'zq_alpha/__init__.py': '', 'zq_alpha/util.py': 'ALPHA_ONLY = 1\nSHARED = 1\n', 'zq_alpha/m.py': 'from .util import *\nfrom . import util\n',
+    'zq_beta/__init__.py': '', 'zq_beta/util.py': 'BETA_ONLY = 2\nSHARED = "s"\n', 'zq_beta/m.py': 'from .util import *\nfrom . import util\n',
     # classes whose attribute tables need each other (a property over an attribute assigned through its setter, instances made
     # inside methods of another class, class attributes assigned at module level): evaluation is cut where it meets itself, and what
     # was computed above a cut must not outlive the request (supp 265f3e6)
@@ -134,12 +142,30 @@ REQUESTS = [
     ('assist', 'import zq_pkg.other\nzq_pkg.other.Y().', (2, 17)),
     ('lint', 'from zq_star import *\nprint(H, make, obj, nothing)\n', None),
     ('location', 'from zq_star import obj\nobj.state', (2, 9)),
+    ('lint', 'from zq_cyca import *\nprint(CA, CB, fa, KB)\n', None),
+    ('lint', 'from zq_cycb import *\nprint(CA, CB, fa, KB)\n', None),
+    ('lint', 'from zq_cycc import *\nprint(CA, CB, CC, nothing)\n', None),
+    ('location', 'from zq_cyca import *\nCB', (2, 2)),
+    ('location', 'from zq_cycb import *\nCA', (2, 2)),
+    ('assist', 'from zq_cycb import *\nC', (2, 1)),
+    ('assist', 'import zq_cyca\nzq_cyca.', (2, 8)),
+    ('assist', 'import zq_cycc\nzq_cycc.', (2, 8)),
+    ('assist', 'from zq_cycb import *\nKB().', (2, 5)),
+    ('lint', 'from .util import *\nprint(ALPHA_ONLY, BETA_ONLY, SHARED)\n', None, 'zq_alpha/buf.py'),
+    ('lint', 'from .util import *\nprint(ALPHA_ONLY, BETA_ONLY, SHARED)\n', None, 'zq_beta/buf.py'),
+    ('assist', 'from .util import *\n', (2, 0), 'zq_alpha/buf.py'),
+    ('assist', 'from .util import *\n', (2, 0), 'zq_beta/buf.py'),
+    ('assist', 'from . import m\nm.', (2, 2), 'zq_alpha/buf.py'),
+    ('assist', 'from . import m\nm.', (2, 2), 'zq_beta/buf.py'),
+    ('location', 'from .util import *\nSHARED', (2, 6), 'zq_alpha/buf.py'),
+    ('location', 'from .util import *\nSHARED', (2, 6), 'zq_beta/buf.py'),
+    ('assist', 'from .m import *\nutil.', (2, 5), 'zq_beta/buf.py'),
 ]
 
 
 def do_request(S, project, root, req, ctx):
-    kind, src, pos = req
-    fn = os.path.join(root, 'buffer.py')
+    kind, src, pos = req[:3]
+    fn = os.path.join(root, req[3] if len(req) > 3 else 'buffer.py')
 
     def go():
         if kind == 'assist':
@@ -352,12 +378,12 @@ def replay(path):
             pr = S['project'].Project([root])
             ans = None
             for q in r['history']:
-                q = (q[0], q[1], tuple(q[2]) if q[2] else None)
+                q = (q[0], q[1], tuple(q[2]) if q[2] else None) + tuple(q[3:])
                 ans = do_request(S, pr, root, q, r['inside_check_changes'])
-                if list(q[:2]) == r['request'][:2]:
+                if [q[0], q[1]] + list(q[3:]) == r['request'][:2] + r['request'][3:]:
                     break
             q = r['request']
-            cold = do_request(S, S['project'].Project([root]), root, (q[0], q[1], tuple(q[2]) if q[2] else None), False)
+            cold = do_request(S, S['project'].Project([root]), root, (q[0], q[1], tuple(q[2]) if q[2] else None) + tuple(q[3:]), False)
             print('history answer %r\nfresh-project answer %r' % (ans, cold))
             bad += ans != cold
             import shutil
